@@ -81,7 +81,8 @@ def step (_ : Unit) (toks : List String) : Unit × String :=
   | ["day", sc, st, ps, uc, b, n, cw, env, reqs] =>
     match nat? sc, bool? st, bool? ps, int? uc, int? b, nat? n, bool? cw, parseEnv env, listOf? parseReq reqs with
     | some sc, some st, some ps, some uc, some b, some n, some cw, some env, some reqs =>
-      let p : MethodP := { stationary := st, perSite := ps, unitCost := uc, considerWeather := cw, env := env, scale := sc }
+      let _ := sc   -- the class code only selects the implementation class on the Python side
+      let p : MethodP := { stationary := st, perSite := ps, unitCost := uc, considerWeather := cw, env := env }
       let d := deployDay p b n reqs
       let s := d.stats
       ((), s!"{s.cost} {s.visited} {s.travel} {s.survey} {s.wpTravel} | " ++ ";".intercalate (d.out.map showOut)
